@@ -585,6 +585,8 @@ val allocs : pev list -> blk0 list
 
 val versions_own : (blk0 * z) list -> pev list -> bool
 
+val ptr_validated : sets -> blk0 option -> pev list -> bool
+
 val op_ok : pev list -> bool
 
 val is_failure : pev -> bool
